@@ -524,7 +524,8 @@ func (f *OrefaFile) Stat() (info fs.FileInfo, err error) {
 		return &OrefaInfo{}, &fs.PathError{Op: op, Path: f.name, Err: err}
 	}
 
-	_, name := avfs.SplitAbs(f.vfs, f.name)
+	// The file may have been opened with a relative name, that SplitAbs can't split.
+	name := f.vfs.Base(f.name)
 	info = f.nd.fillStatFrom(name)
 
 	return info, nil
